@@ -22,18 +22,22 @@ structure CertFacts (b : Block) (c : Cert) : Prop where
   keys : ∀ p ∈ c.sigma, RemovedDest c p.1
   total : ∀ r ∈ c.removed, (c.sigma.lookup r.dest).isSome = true
   image : ∀ p ∈ c.sigma, ¬ RemovedDest c p.2
+  rew : ∀ p ∈ c.rewrites, p.1 ∈ b.nets ∧ p.1 ∉ c.removed ∧ p.1.op.isComb = true ∧ p.2.op.isComb = true ∧
+    rewriteJustified b p.1 p.2 = true
 
 theorem certOk_facts (b : Block) (c : Cert) (h : certOk b c = true) : CertFacts b c := by
   simp only [certOk, Bool.and_eq_true, List.all_eq_true, List.contains_eq_mem, decide_eq_true_eq,
     List.any_eq_true, beq_iff_eq, Bool.not_eq_true', List.any_eq_false] at h
-  obtain ⟨⟨⟨h1, h2⟩, h3⟩, h4⟩ := h
-  refine ⟨fun r hr => ?_, fun p hp => ?_, h3, fun p hp => ?_⟩
+  obtain ⟨⟨⟨⟨h1, h2⟩, h3⟩, h4⟩, h5⟩ := h
+  refine ⟨fun r hr => ?_, fun p hp => ?_, h3, fun p hp => ?_, fun p hp => ?_⟩
   · obtain ⟨⟨a, b'⟩, c'⟩ := h1 r hr
     exact ⟨a, b', c'⟩
   · obtain ⟨r, hr, hd⟩ := h2 p hp
     exact ⟨r, hr, hd⟩
   · rintro ⟨r, hr, hd⟩
     exact h4 p hp r hr hd
+  · obtain ⟨⟨⟨⟨a1, a2⟩, a3⟩, a4⟩, a5⟩ := h5 p hp
+    exact ⟨a1, by simpa using a2, a3, a4, a5⟩
 
 /-- a wire that is not a removed destination is its own replacement -/
 theorem sub_of_not_removed (b : Block) (c : Cert) (hf : CertFacts b c) (a : Nat) (h : ¬ RemovedDest c a) :
@@ -158,6 +162,85 @@ theorem netFun_swapped (b : Block) (st : State) (k r : Net) (hop : k.op = r.op) 
     rw [hr] at hc
     exact comb_reverse _ hc _ _
 
+theorem constVals_spec (b : Block) (v : Env) (hconst : ∀ a val, b.kind a = .const val → v a = val) :
+    ∀ (l : List Nat) (vs : List Nat), constVals b l = some vs → l.map v = vs := by
+  intro l
+  induction l with
+  | nil => intro vs h; simp [constVals] at h; simp [h]
+  | cons a rest ih =>
+    intro vs h
+    simp only [constVals] at h
+    split at h
+    · rename_i val vs' hk hrest
+      simp only [Option.some.injEq] at h
+      subst h
+      simp [hconst a val hk, ih vs' hrest]
+    · simp at h
+
+/-- a net whose arguments are all constants computes `foldVal` -/
+theorem foldVal_spec (b : Block) (st : State) (v : Env) (hconst : ∀ a val, b.kind a = .const val → v a = val)
+    (n : Net) (fv : Nat) (h : foldVal b n = some fv) : netFun b st n (n.args.map v) = fv := by
+  simp only [foldVal] at h
+  cases hop : n.op with
+  | mread m => simp [hop] at h
+  | _ =>
+    all_goals
+      simp only [hop, Option.map_eq_some_iff] at h
+      obtain ⟨vs, hvs, hfv⟩ := h
+      simp only [netFun, hop, constVals_spec b v hconst n.args vs hvs]
+      exact hfv
+
+/-- a one-bit gate with one constant operand: its value is the table entry of its other operand -/
+theorem oneConst_spec (b : Block) (st : State) (v : Env) (hconst : ∀ a val, b.kind a = .const val → v a = val)
+    (hrange : ∀ a, v a < 2 ^ b.width a) (n : Net) (cv : Nat) (cf : Bool) (a : Nat)
+    (h : oneConst? b n = some (cv, cf, a)) (g : Nat → Nat) (htv : twoVarOp n.op = true)
+    (htab : oneConstTable n.op cv cf g = true) :
+    a ∈ n.args ∧ b.width a = 1 ∧ b.width n.dest = 1 ∧ netFun b st n (n.args.map v) = g (v a) := by
+  simp only [oneConst?] at h
+  split at h
+  · rename_i p q hargs
+    split at h
+    · rename_i hw
+      simp only [Bool.and_eq_true, beq_iff_eq] at hw
+      obtain ⟨⟨hwp, hwq⟩, hwd⟩ := hw
+      have hnm : ∀ m, n.op ≠ .mread m := by
+        intro m hm; rw [hm] at htv; simp [twoVarOp] at htv
+      simp only [oneConstTable, List.all_cons, List.all_nil, Bool.and_true, Bool.and_eq_true, beq_iff_eq] at htab
+      obtain ⟨ht0, ht1⟩ := htab
+      split at h
+      · simp at h
+      · rename_i cv' hkp hq
+        simp only [Option.some.injEq, Prod.mk.injEq] at h
+        obtain ⟨rfl, rfl, rfl⟩ := h
+        have hvq : v q < 2 := by have := hrange q; rwa [hwq] at this
+        refine ⟨by simp [hargs], hwq, hwd, ?_⟩
+        have hcomb : netFun b st n (n.args.map v) = Spec.comb n.op [(1, cv'), (1, v q)] 1 := by
+          cases hop : n.op with
+          | mread m => exact absurd hop (hnm m)
+          | _ => simp [netFun, hop, hargs, hwp, hwq, hwd, hconst p cv' hkp]
+        rw [hcomb]
+        have : v q = 0 ∨ v q = 1 := by omega
+        rcases this with h0 | h1
+        · rw [h0]; simpa using ht0
+        · rw [h1]; simpa using ht1
+      · rename_i cv' hp hkq
+        simp only [Option.some.injEq, Prod.mk.injEq] at h
+        obtain ⟨rfl, rfl, rfl⟩ := h
+        have hvp : v p < 2 := by have := hrange p; rwa [hwp] at this
+        refine ⟨by simp [hargs], hwp, hwd, ?_⟩
+        have hcomb : netFun b st n (n.args.map v) = Spec.comb n.op [(1, v p), (1, cv')] 1 := by
+          cases hop : n.op with
+          | mread m => exact absurd hop (hnm m)
+          | _ => simp [netFun, hop, hargs, hwp, hwq, hwd, hconst q cv' hp]
+        rw [hcomb]
+        have : v p = 0 ∨ v p = 1 := by omega
+        rcases this with h0 | h1
+        · rw [h0]; simpa using ht0
+        · rw [h1]; simpa using ht1
+      · simp at h
+    · simp at h
+  · simp at h
+
 /-- a justified removal: the removed destination always carries the value (and has the width) of its replacement,
     provided the same holds for those of its arguments that are removed destinations themselves -/
 theorem good_of_justified (b : Block) (c : Cert) (st : State) (e v : Env) (order : List Net)
@@ -177,8 +260,9 @@ theorem good_of_justified (b : Block) (c : Cert) (st : State) (e v : Env) (order
     · exact hargs a ha hra
     · rw [sub_of_not_removed b c hf a hra]; exact ⟨rfl, rfl⟩
   simp only [justified, Bool.or_eq_true] at hj
-  rcases hj with hA | hB
-  · split at hA
+  rcases hj with (((hA | hC) | hC1) | hI) | hB
+  · simp only [justAlias] at hA
+    split at hA
     · -- a `w` net of equal width
       rename_i a hop hra
       simp only [Bool.and_eq_true, beq_iff_eq] at hA
@@ -201,8 +285,38 @@ theorem good_of_justified (b : Block) (c : Cert) (st : State) (e v : Env) (order
         rw [hidx, selectVal_range, ← hwa, Nat.mod_mod, Nat.mod_eq_of_lt (hrange a)]
       exact ⟨by rw [hval, hva, hsa], by rw [← hwa, hwa', hsa]⟩
     · simp at hA
+  · -- constant folding
+    simp only [justConst] at hC
+    split at hC
+    · rename_i cv fv hk hfv
+      simp only [Bool.and_eq_true, beq_iff_eq] at hC
+      obtain ⟨hcv, hw⟩ := hC
+      refine ⟨?_, hw.symm⟩
+      rw [hrv, foldVal_spec b st v hconst r fv hfv, hconst _ cv hk, hcv]
+    · simp at hC
+  · -- a one-bit gate with one constant operand and a constant result
+    simp only [justConst1, Bool.and_eq_true] at hC1
+    obtain ⟨htv, hC1⟩ := hC1
+    split at hC1
+    · rename_i k cv cf a hk hone
+      simp only [Bool.and_eq_true, beq_iff_eq] at hC1
+      obtain ⟨htab, hw⟩ := hC1
+      obtain ⟨_, _, hwd, hval⟩ := oneConst_spec b st v hconst hrange r cv cf a hone (fun _ => k) htv htab
+      exact ⟨by rw [hrv, hval, hconst _ k hk], by rw [hwd, hw]⟩
+    · simp at hC1
+  · -- a one-bit gate passing its other operand through
+    simp only [justIdent, Bool.and_eq_true] at hI
+    obtain ⟨htv, hI⟩ := hI
+    split at hI
+    · rename_i cv cf a hone
+      simp only [Bool.and_eq_true, beq_iff_eq] at hI
+      obtain ⟨htab, hsa⟩ := hI
+      obtain ⟨hmem, hwa, hwd, hval⟩ := oneConst_spec b st v hconst hrange r cv cf a hone (fun xv => xv) htv htab
+      obtain ⟨hva, hwa'⟩ := harg a hmem
+      exact ⟨by rw [hrv, hval, hva, hsa], by rw [hwd, ← hwa, hwa', hsa]⟩
+    · simp at hI
   · -- the same computation is kept elsewhere
-    simp only [List.any_eq_true, Bool.and_eq_true, Bool.not_eq_true', beq_iff_eq, Bool.or_eq_true,
+    simp only [justCse, List.any_eq_true, Bool.and_eq_true, Bool.not_eq_true', beq_iff_eq, Bool.or_eq_true,
       List.contains_eq_mem, decide_eq_false_iff_not] at hB
     obtain ⟨k, hkm, ⟨⟨⟨⟨⟨_, hkc⟩, hkd⟩, hkop⟩, hkw⟩, hkargs⟩⟩ := hB
     have hkv : v k.dest = netFun b st k (k.args.map v) := hcons.1 k ((hord k).mpr ⟨hkm, hkc⟩)
@@ -265,11 +379,92 @@ theorem alias_values (b : Block) (c : Cert) (st : State) (e v : Env) (order : Li
 theorem netFun_applyCert (b : Block) (c : Cert) (st : State) : netFun (applyCert b c) st = netFun b st := rfl
 
 theorem mem_applyCert (b : Block) (c : Cert) (n' : Net) (h : n' ∈ (applyCert b c).nets) :
-    ∃ n ∈ b.nets, n ∉ c.removed ∧ n' = substNet c.sigma n := by
+    ∃ n ∈ b.nets, n ∉ c.removed ∧ n' = substNet c.sigma (rewritten c n) := by
   simp only [applyCert, keptNets, List.mem_map, List.mem_filter, Bool.not_eq_true', List.contains_eq_mem,
     decide_eq_false_iff_not] at h
   obtain ⟨n, ⟨hn, hnr⟩, rfl⟩ := h
   exact ⟨n, hn, hnr, rfl⟩
+
+/-- a kept net stands for itself or for its justified rewrite -/
+theorem rewritten_cases (c : Cert) (n : Net) :
+    rewritten c n = n ∨ ∃ n', (n, n') ∈ c.rewrites ∧ rewritten c n = n' := by
+  simp only [rewritten]
+  cases hl : c.rewrites.lookup n with
+  | none => exact Or.inl rfl
+  | some n' =>
+    right
+    obtain ⟨l1, l2, heq, _⟩ := List.lookup_eq_some_iff.mp hl
+    exact ⟨n', by rw [heq]; simp, rfl⟩
+
+/-- a justified rewrite computes what the net it replaces computes, into the same destination -/
+theorem rewrite_sound (b : Block) (st : State) (v : Env) (hconst : ∀ a val, b.kind a = .const val → v a = val)
+    (hrange : ∀ a, v a < 2 ^ b.width a) (o n' : Net) (h : rewriteJustified b o n' = true) :
+    n'.dest = o.dest ∧ netFun b st n' (n'.args.map v) = netFun b st o (o.args.map v) := by
+  simp only [rewriteJustified, Bool.and_eq_true, beq_iff_eq, Bool.or_eq_true] at h
+  obtain ⟨hd, hj⟩ := h
+  have hdest : n'.dest = o.dest := by simp [Net.dest, hd]
+  refine ⟨hdest, ?_⟩
+  rcases hj with ((hW | hW1) | hWi) | hI
+  · split at hW
+    · rename_i cw fv hop hargs hfv
+      split at hW
+      · rename_i cv hk
+        simp only [beq_iff_eq] at hW
+        rw [foldVal_spec b st v hconst o fv hfv]
+        simp only [netFun, hop, hargs, List.map_cons, List.map_nil, List.zip_cons_cons, List.zip_nil_right, Spec.comb,
+          hconst cw cv hk, hdest]
+        exact hW
+      · simp at hW
+    · simp at hW
+  · split at hW1
+    · rename_i cw hop hargs
+      simp only [Bool.and_eq_true] at hW1
+      obtain ⟨htv, hW1⟩ := hW1
+      split at hW1
+      · rename_i k cv cf a hk hone
+        obtain ⟨_, _, hwd, hval⟩ := oneConst_spec b st v hconst hrange o cv cf a hone (fun _ => k % 2) htv hW1
+        rw [hval]
+        simp only [netFun, hop, hargs, List.map_cons, List.map_nil, List.zip_cons_cons, List.zip_nil_right, Spec.comb,
+          hconst cw k hk, hdest, hwd]
+      · simp at hW1
+    · simp at hW1
+  · split at hWi
+    · rename_i a hop hargs
+      simp only [Bool.and_eq_true] at hWi
+      obtain ⟨htv, hWi⟩ := hWi
+      split at hWi
+      · rename_i cv cf a' hone
+        simp only [Bool.and_eq_true, beq_iff_eq] at hWi
+        obtain ⟨haa, htab⟩ := hWi
+        subst haa
+        obtain ⟨_, hwa, hwd, hval⟩ := oneConst_spec b st v hconst hrange o cv cf a' hone (fun xv => xv) htv htab
+        rw [hval]
+        have hva : v a' < 2 := by have := hrange a'; rwa [hwa] at this
+        simp only [netFun, hop, hargs, List.map_cons, List.map_nil, List.zip_cons_cons, List.zip_nil_right, Spec.comb,
+          hdest, hwd]
+        omega
+      · simp at hWi
+    · simp at hWi
+  · split at hI
+    · rename_i a hop hargs
+      simp only [Bool.and_eq_true] at hI
+      obtain ⟨htv, hI⟩ := hI
+      split at hI
+      · rename_i cv cf a' hone
+        simp only [Bool.and_eq_true, beq_iff_eq] at hI
+        obtain ⟨haa, htab⟩ := hI
+        subst haa
+        obtain ⟨_, hwa, hwd, hval⟩ := oneConst_spec b st v hconst hrange o cv cf a' hone (fun xv => 1 - xv) htv htab
+        rw [hval]
+        have hva : v a' < 2 := by have := hrange a'; rwa [hwa] at this
+        simp only [netFun, hop, hargs, List.map_cons, List.map_nil, List.zip_cons_cons, List.zip_nil_right, Spec.comb,
+          hdest, hwd]
+        have : v a' = 0 ∨ v a' = 1 := by omega
+        rcases this with h0 | h1
+        · simp [h0]
+        · simp [h1]
+      · simp at hI
+    · simp at hI
 
 /-- **alias elimination preserves the valuation of every kept wire**: for any dependency orders of the
     combinational nets before and after, any source valuation whose consistent extension is in range. -/
@@ -309,7 +504,17 @@ theorem alias_eval (b : Block) (c : Cert) (st : State) (e : Env) (order order' :
     · intro n' hn'
       obtain ⟨hmem', hc'⟩ := (hord' n').mp hn'
       obtain ⟨n, hn, hnr, rfl⟩ := mem_applyCert b c n' hmem'
-      have hnc : n.op.isComb = true := hc'
+      -- the net that stands for `n`: itself or its justified rewrite
+      have hm : n.op.isComb = true ∧ (rewritten c n).dest = n.dest ∧
+          netFun b st (rewritten c n) ((rewritten c n).args.map v) = netFun b st n (n.args.map v) := by
+        rcases rewritten_cases c n with heq | ⟨m, hmem, heq⟩
+        · rw [heq]
+          exact ⟨by rw [heq] at hc'; exact hc', rfl, rfl⟩
+        · obtain ⟨_, _, hoc, _, hj⟩ := hf.rew (n, m) hmem
+          obtain ⟨hd, hv⟩ := rewrite_sound b st v hconst hrange n m hj
+          rw [heq]
+          exact ⟨hoc, hd, hv⟩
+      obtain ⟨hnc, hmd, hmv⟩ := hm
       have hnin : n ∈ order := (hord n).mpr ⟨hn, hnc⟩
       -- the destination of a kept net is a kept wire
       have hdk : ¬ RemovedDest c n.dest := by
@@ -317,16 +522,17 @@ theorem alias_eval (b : Block) (c : Cert) (st : State) (e : Env) (order order' :
         have hrin : r ∈ order := (hord r).mpr ⟨(hf.mem r hr).1, (hf.mem r hr).2.1⟩
         have : r = n := hsingle r hrin n hnin hd
         exact hnr (this ▸ hr)
-      show v' n.dest = netFun b st (substNet c.sigma n) ((substNet c.sigma n).args.map v')
+      show v' (rewritten c n).dest = netFun b st (substNet c.sigma (rewritten c n))
+        ((substNet c.sigma (rewritten c n)).args.map v')
       have hvn : v n.dest = netFun b st n (n.args.map v) := cons.1 n hnin
-      rw [hv'_of _ hdk, hvn]
-      have hvals : (substNet c.sigma n).args.map v' = n.args.map v := by
+      rw [hmd, hv'_of _ hdk, hvn, ← hmv]
+      have hvals : (substNet c.sigma (rewritten c n)).args.map v' = (rewritten c n).args.map v := by
         simp only [substNet, List.map_map]
         apply List.map_congr_left
         intro a _
         simp only [Function.comp]
         rw [hv'_of _ (sub_not_removed b c hf a), (hsubst a).1]
-      have hwid : (substNet c.sigma n).args.map b.width = n.args.map b.width := by
+      have hwid : (substNet c.sigma (rewritten c n)).args.map b.width = (rewritten c n).args.map b.width := by
         simp only [substNet, List.map_map]
         apply List.map_congr_left
         intro a _
@@ -344,64 +550,125 @@ theorem alias_eval (b : Block) (c : Cert) (st : State) (e : Env) (order order' :
         intro n hn hnd
         obtain ⟨hnm, hnc⟩ := (hord n).mp hn
         have hnr : n ∉ c.removed := fun h => hry ⟨n, h, hnd⟩
-        have hmem' : substNet c.sigma n ∈ (applyCert b c).nets := by
+        have hmem' : substNet c.sigma (rewritten c n) ∈ (applyCert b c).nets := by
           simp only [applyCert, keptNets, List.mem_map, List.mem_filter, Bool.not_eq_true', List.contains_eq_mem,
             decide_eq_false_iff_not]
           exact ⟨n, ⟨hnm, hnr⟩, rfl⟩
-        exact hy _ ((hord' _).mpr ⟨hmem', hnc⟩) hnd
+        have hrc : (rewritten c n).op.isComb = true ∧ (rewritten c n).dest = n.dest := by
+          rcases rewritten_cases c n with heq | ⟨m, hmem, heq⟩
+          · rw [heq]; exact ⟨hnc, rfl⟩
+          · obtain ⟨_, _, _, hmc, hj⟩ := hf.rew (n, m) hmem
+            rw [heq]
+            have hdj : m.dests = n.dests := by
+              simp only [rewriteJustified, Bool.and_eq_true, beq_iff_eq] at hj
+              exact hj.1
+            exact ⟨hmc, by simp [Net.dest, hdj]⟩
+        exact hy _ ((hord' _).mpr ⟨hmem', hrc.1⟩) (by show (rewritten c n).dest = y; rw [hrc.2]; exact hnd)
   have huniq := consistent_unique (netFun b st) order' e (evalSeq (netFun b st) order' e) v' hto' cons' hcons
   show evalSeq (netFun (applyCert b c) st) order' e x = evalSeq (netFun b st) order e x
   rw [netFun_applyCert, huniq x, hv'_of x hx]
 
 /-! ### cycles and runs -/
 
-theorem find_kept (σ : List (Nat × Nat)) (removed : List Net) (p : Net → Bool)
-    (hp : ∀ n, p (substNet σ n) = p n) (hrm : ∀ n ∈ removed, p n = false) (l : List Net) :
-    ((l.filter (fun n => !removed.contains n)).map (substNet σ)).find? p = (l.find? p).map (substNet σ) := by
+theorem find_kept (g : Net → Net) (removed : List Net) (p : Net → Bool) (l : List Net)
+    (hp : ∀ n ∈ l, p (g n) = p n) (hrm : ∀ n ∈ removed, p n = false) :
+    ((l.filter (fun n => !removed.contains n)).map g).find? p = (l.find? p).map g := by
   induction l with
   | nil => rfl
   | cons n ns ih =>
+    have ihn := ih (fun m hm => hp m (by simp [hm]))
     by_cases hmem : n ∈ removed
-    · have hq : (fun n => !removed.contains n) n = false := by simp [hmem]
-      rw [List.filter_cons_of_neg (by simpa using hq), List.find?_cons, hrm n hmem]
-      exact ih
+    · have hq : (!removed.contains n) = false := by simp [hmem]
+      rw [List.filter_cons_of_neg (p := fun n => !removed.contains n) (by simpa using hq), List.find?_cons, hrm n hmem]
+      exact ihn
     · have hq : (!removed.contains n) = true := by simp [hmem]
       rw [List.filter_cons_of_pos (p := fun n => !removed.contains n) hq, List.map_cons, List.find?_cons,
-        List.find?_cons, hp n]
+        List.find?_cons, hp n (by simp)]
       cases hpn : p n with
       | true => rfl
-      | false => exact ih
+      | false => exact ihn
 
-theorem filter_kept (σ : List (Nat × Nat)) (removed : List Net) (p : Net → Bool)
-    (hp : ∀ n, p (substNet σ n) = p n) (hrm : ∀ n ∈ removed, p n = false) (l : List Net) :
-    ((l.filter (fun n => !removed.contains n)).map (substNet σ)).filter p = (l.filter p).map (substNet σ) := by
+theorem filter_kept (g : Net → Net) (removed : List Net) (p : Net → Bool) (l : List Net)
+    (hp : ∀ n ∈ l, p (g n) = p n) (hrm : ∀ n ∈ removed, p n = false) :
+    ((l.filter (fun n => !removed.contains n)).map g).filter p = (l.filter p).map g := by
   induction l with
   | nil => rfl
   | cons n ns ih =>
+    have ihn := ih (fun m hm => hp m (by simp [hm]))
     by_cases hmem : n ∈ removed
-    · have hq : (fun n => !removed.contains n) n = false := by simp [hmem]
-      rw [List.filter_cons_of_neg (by simpa using hq), List.filter_cons_of_neg (by simp [hrm n hmem])]
-      exact ih
+    · have hq : (!removed.contains n) = false := by simp [hmem]
+      rw [List.filter_cons_of_neg (p := fun n => !removed.contains n) (by simpa using hq),
+        List.filter_cons_of_neg (by simp [hrm n hmem])]
+      exact ihn
     · have hq : (!removed.contains n) = true := by simp [hmem]
       rw [List.filter_cons_of_pos (p := fun n => !removed.contains n) hq, List.map_cons]
       cases hpn : p n with
       | true =>
-        rw [List.filter_cons_of_pos (by rw [hp n]; exact hpn), List.filter_cons_of_pos hpn, List.map_cons, ih]
+        rw [List.filter_cons_of_pos (by rw [hp n (by simp)]; exact hpn), List.filter_cons_of_pos hpn, List.map_cons, ihn]
       | false =>
-        rw [List.filter_cons_of_neg (by rw [hp n]; simp [hpn]), List.filter_cons_of_neg (by simp [hpn])]
-        exact ih
+        rw [List.filter_cons_of_neg (by rw [hp n (by simp)]; simp [hpn]), List.filter_cons_of_neg (by simp [hpn])]
+        exact ihn
+
+/-- a net that is not combinational is never rewritten -/
+theorem rewritten_noncomb (b : Block) (c : Cert) (hf : CertFacts b c) (n : Net) (h : n.op.isComb = false) :
+    rewritten c n = n := by
+  rcases rewritten_cases c n with heq | ⟨m, hmem, _⟩
+  · exact heq
+  · have := (hf.rew (n, m) hmem).2.2.1
+    rw [h] at this
+    simp at this
+
+/-- what stands for a net has its class (combinational or not) -/
+theorem rewritten_isComb (b : Block) (c : Cert) (hf : CertFacts b c) (n : Net) :
+    (rewritten c n).op.isComb = n.op.isComb := by
+  rcases rewritten_cases c n with heq | ⟨m, hmem, heq⟩
+  · rw [heq]
+  · obtain ⟨_, _, h1, h2, _⟩ := hf.rew (n, m) hmem
+    rw [heq, h1, h2]
 
 theorem regNetOf_applyCert (b : Block) (c : Cert) (hf : CertFacts b c) (r : Nat) :
     regNetOf (applyCert b c) r = (regNetOf b r).map (substNet c.sigma) := by
+  have hg : (regNetOf b r).map (fun n => substNet c.sigma (rewritten c n)) = (regNetOf b r).map (substNet c.sigma) := by
+    cases hreg : regNetOf b r with
+    | none => rfl
+    | some n =>
+      have hp := List.find?_some hreg
+      simp only [Bool.and_eq_true, beq_iff_eq] at hp
+      have : rewritten c n = n := rewritten_noncomb b c hf n (by rw [hp.1]; rfl)
+      simp [this]
+  rw [← hg]
   simp only [regNetOf, applyCert, keptNets]
-  exact find_kept c.sigma c.removed _ (fun _ => rfl)
-    (fun n hn => LowerNet.isComb_not_reg n (hf.mem n hn).2.1 r) b.nets
+  apply find_kept (fun n => substNet c.sigma (rewritten c n)) c.removed _ b.nets
+  · intro n _
+    show ((rewritten c n).op == .reg && (rewritten c n).dests == [r]) = (n.op == .reg && n.dests == [r])
+    cases hc : n.op.isComb with
+    | false => rw [rewritten_noncomb b c hf n hc]
+    | true =>
+      have h1 := LowerNet.isComb_not_reg n hc r
+      have h2 := LowerNet.isComb_not_reg (rewritten c n) (by rw [rewritten_isComb b c hf n]; exact hc) r
+      rw [h1, h2]
+  · exact fun n hn => LowerNet.isComb_not_reg n (hf.mem n hn).2.1 r
 
 theorem writeNets_applyCert (b : Block) (c : Cert) (hf : CertFacts b c) :
     writeNets (applyCert b c) = (writeNets b).map (substNet c.sigma) := by
+  have hg : (writeNets b).map (fun n => substNet c.sigma (rewritten c n)) = (writeNets b).map (substNet c.sigma) := by
+    apply List.map_congr_left
+    intro n hn
+    have h2 := (List.mem_filter.mp hn).2
+    have hc : n.op.isComb = false := by cases hop : n.op <;> simp_all [Op.isComb]
+    rw [rewritten_noncomb b c hf n hc]
+  rw [← hg]
   simp only [writeNets, applyCert, keptNets]
-  exact filter_kept c.sigma c.removed _ (fun _ => rfl)
-    (fun n hn => LowerNet.isComb_not_write n (hf.mem n hn).2.1) b.nets
+  apply filter_kept (fun n => substNet c.sigma (rewritten c n)) c.removed _ b.nets
+  · intro n _
+    show (match (rewritten c n).op with | .mwrite _ => true | _ => false) = (match n.op with | .mwrite _ => true | _ => false)
+    cases hc : n.op.isComb with
+    | false => rw [rewritten_noncomb b c hf n hc]
+    | true =>
+      have h1 := LowerNet.isComb_not_write n hc
+      have h2 := LowerNet.isComb_not_write (rewritten c n) (by rw [rewritten_isComb b c hf n]; exact hc)
+      exact h2.trans h1.symm
+  · exact fun n hn => LowerNet.isComb_not_write n (hf.mem n hn).2.1
 
 theorem applyWrites_subst (e e' : Env) (σ : List (Nat × Nat)) (ns : List Net) (mm : Nat → Nat → Nat)
     (h : ∀ a, e' (sub σ a) = e a) : applyWrites e' (ns.map (substNet σ)) mm = applyWrites e ns mm := by
